@@ -203,8 +203,8 @@ class MethodCallMessage (DBusMessage):
 
         self.path = path
         self.member = member
-        self.interface = interface
-        self.destination = destination
+        self.interface = interface or None
+        self.destination = destination or None
         self.signature = signature
         self.body = body
         self.expectReply = expectReply
@@ -241,7 +241,7 @@ class MethodReturnMessage (DBusMessage):
             marshal.validateBusName(destination)
 
         self.reply_serial = marshal.UInt32(reply_serial)
-        self.destination = destination
+        self.destination = destination or None
         self.signature = signature
         self.body = body
 
@@ -281,7 +281,7 @@ class ErrorMessage (DBusMessage):
 
         self.error_name = error_name
         self.reply_serial = marshal.UInt32(reply_serial)
-        self.destination = destination
+        self.destination = destination or None
         self.signature = signature
         self.body = body
         self.sender = sender
@@ -325,7 +325,7 @@ class SignalMessage (DBusMessage):
         self.path = path
         self.member = member
         self.interface = interface
-        self.destination = destination
+        self.destination = destination or None
         self.signature = signature
         self.body = body
 
